@@ -809,6 +809,13 @@ class Extractor:
             return c
         if isinstance(v, (ast.Lambda,)):
             return True
+        if isinstance(v, ast.Call) and isinstance(v.func, ast.Name) and v.func.id == 'isinstance' and len(v.args) == 2 \
+                and isinstance(v.args[0], ast.Name) and v.args[0].id.startswith('<exc '):
+            # the class of a caught exception is the class of the outcome that raised it
+            cl = v.args[1]
+            m = exc_matches(v.args[0].id[5:-1], [unparse(x) for x in cl.elts] if isinstance(cl, ast.Tuple) else unparse(cl))
+            if m is not None:
+                return m
         text = canon(v)
         if text in st.facts:
             return st.facts[text]
